@@ -256,6 +256,21 @@ for D in (2, 3):
           covers=['g_n0 == 0', 'g_n0 == 1 && self->stride_ != self->sub_.nelems_', 'g_n0 > 1 && g_p > g_n1 && g_p < MUL(g_n0, g_n1)'],
           assigns=['*ret'], mode='uf')
 
+# ------------------------------------------------------------------------ all access paths to one index tuple reach the same element:
+# call syntax with indices A(i, j[, k]) and tuple apply  (chained brackets are S{D}_index composed D times)
+for D in (2, 3):
+    idx = ['i%d' % k for k in range(D)]
+    elem = 'self->base_' + ''.join(' + (MUL(%s, %s) - %s)' % (idx[k], lp('self', k, 'stride_'), lp('self', k, 'offset_')) for k in range(D))
+    for zb, suf, props, zreq, zlem in variants(D):
+        for nm, call in (('paren_idx', '(*self)(%s)' % ', '.join(idx)), ('apply', 'self->apply(std::make_tuple(%s))' % ', '.join(idx))):
+            Check('S%d_%s%s' % (D, nm, suf), props[:1], 'subarray', fn='w_S%d_%s%s' % (D, nm, suf), params=['self'] + idx,
+                  wrapper=('double const*', 'CS<%d> const* self, %s' % (D, ', '.join('multi::index ' + x for x in idx)), 'return &%s;' % call),
+                  cxx={'self': SUB(D)}, ghosts=ghosts_fn(D),
+                  requires=[WF('self', D), 'self->base_ != 0'] + zreq + ['g_f%d <= %s && %s < g_f%d + g_n%d' % (k, idx[k], idx[k], k, k) for k in range(D)],
+                  lemmas=WF_lemmas('self', D) + zlem,
+                  ensures=[('designates the element chained brackets designate: base + sum_k (i_k*stride_k - offset_k)', 'RET == ' + elem)],
+                  covers=['%s > g_f%d' % (idx[D-1], D-1)], assigns=[], mode='uf', solvers=('cvc5', 'cadical'))
+
 # every view-forming operation hands the 0-dimensional leaf layout on unchanged (its nelems_ == 1 is what num_elements() multiplies up)
 import re as _re2
 for _c in list(CHECKS.values()):
